@@ -54,8 +54,9 @@ ALL_FEATURES = [
     "lookalike_first",
     "double_space",
     "crlf",
+    "empty_first_line",
 ]
-RARE_FEATURES = {"lookalike_first": 0.10, "double_space": 0.10, "crlf": 0.08}
+RARE_FEATURES = {"lookalike_first": 0.10, "double_space": 0.10, "crlf": 0.08, "empty_first_line": 0.04}
 
 
 def pick_features(rng: random.Random, allow_rare: bool = True) -> list[str]:
@@ -244,6 +245,10 @@ class WorldGen:
                     lines.append("  * " + r.choice(PLAIN))
             if self.has("double_space") and r.random() < 0.2:
                 lines[0] = lines[0] + " "  # trailing space on the first line of a multi-line item
+            if self.has("empty_first_line") and not with_zid and r.random() < 0.3:
+                # a todo / note whose text starts on the continuation line (known finding, DESIGN 10.4)
+                prio = f" P{r.randrange(10)}" if kind != "-" and r.random() < 0.5 else ""
+                lines[0] = kind + prio + " "
         return lines
 
     def block(self, lo: int = 1, hi: int = 4) -> list[str]:
